@@ -17,6 +17,11 @@
                        peer going away OR the writer dying, then signal the writer (`wsDrained`)
                        and join it (`writerExit`); when the loop ended for another reason the
                        writer is signalled at once (`wsDrained` from `open` with `peerGone`).
+                       `writerExit` stands for BOTH "the send task has ended" and "graceful_shutdown
+                       joined it" (ws.rs:374 `send_task_handle.await`): the connection task reaches
+                       `closed` — and drops its `StopHandle` — only through it.  An answer is `onWire`
+                       only once `writerStep` has WRITTEN it (`send_message` returned), never by
+                       merely being queued; `writerExit` needs an empty queue.
   ws.rs:202-266        `send_task`: `select(rx_item, (ping, stop))` polls the queue FIRST, so the
                        stop signal is only honoured on an empty queue (`writerExit` needs
                        `noQueued`); a failing send ends it (peer gone).          [atomic here]
@@ -185,8 +190,10 @@ def enabled (s : State) (op : Op) : Bool :=
   | .writerExit c =>
     connSat s c (fun x => x.tr == .ws && x.phase == .writerStop && (noQueued s c || x.peerGone))
   | .httpClose c =>
-    connSat s c (fun x => x.tr == .http && x.phase != .closed &&
-      ((x.phase == .graceful && noInflight s c) || x.peerGone))
+    -- hyper finishes an HTTP connection that has no request in flight whenever it sees fit: after
+    -- `graceful_shutdown()`, but also without any stop when the client asked for `Connection: close`
+    -- (HTTP/1.0 style) or the keep-alive ran out; with a request in flight only when the peer is gone
+    connSat s c (fun x => x.tr == .http && x.phase != .closed && (noInflight s c || x.peerGone))
   | .peerGone c => hasConn s c
   | .resolve => noReceivers s
 
